@@ -310,10 +310,17 @@ void VGM_Writer::add_datablockcmd(uint8_t dtype, uint32_t size, uint32_t romsize
 	*buffer_pos++ = 0x67;
 	*buffer_pos++ = 0x66;
 	*buffer_pos++ = dtype;
-	size += 8;
-	my_memcpy((uint32_t*)&size,4);
-	my_memcpy((uint32_t*)&romsize,4);
-	my_memcpy((uint32_t*)&offset,4);
+	if(dtype >= 0x80 && dtype < 0xc0) // only ROM/RAM image dumps carry the total size and start offset
+	{
+		size += 8;
+		my_memcpy((uint32_t*)&size,4);
+		my_memcpy((uint32_t*)&romsize,4);
+		my_memcpy((uint32_t*)&offset,4);
+	}
+	else
+	{
+		my_memcpy((uint32_t*)&size,4);
+	}
 }
 
 void VGM_Writer::add_delay()
